@@ -492,4 +492,6 @@ class RadialProfile(ProfileBase):
         """
         The raw data profile as a 1D `~numpy.ndarray`.
         """
-        return self._data_profile[1]
+        # apply any normalization that was performed before this
+        # (lazy) property was first accessed; see `normalize`
+        return self._data_profile[1] / self.normalization_value
